@@ -12,6 +12,9 @@ Python source on every run into Gallina terms, and coqc proves that Model/Nnls.v
   fista_entry       None -> 0 for sparsity_coef / ridge_coef, x None -> zeros, the default step 1 / (sigma + 2 ridge_coef)
   admm_x_split      rho = trace(UtU) / shape(x)[1]; x_split = solve((UtU + rho I)^T, (UtM + rho (x + dual_var))^T)
   aset_selection_termination   when argmax(gradient) enters the passive set; clip / gradient / termination test at the end of the loop
+  admm_loop_body_stop   admm with n_const given, ENTRYWISE: the two arguments of tl.solve, the argument of proximal_operator, the new dual variable,
+                    the matrices inside the two norm tests (Model/NnlsAdmm.v admm_body / admm_stop; entry lemmas in Proofs/NnlsProofsAdmmLoop.v)
+  fista_momentum    momentum_old = 1.0; momentum = (1 + sqrt(1 + 4 momentum_old**2)) / 2 = Model/NnlsMomentum.v momentum_next; momentum_old = momentum
 (the structural parts of the last four are matched as ast patterns; their arithmetic is translated; all end in coqc goals about the model)
 Fail closed: a construct the translator does not know is a broken tie."""
 import ast
@@ -679,25 +682,19 @@ def tie_fista_entry(tree):
 
 
 def tie_admm_split(tree):
+    """x_split of the n_const=None model (admm_none) is tl.solve applied to the SAME two matrices as in the loop of the whole-function model;
+    their entries are tied to the source by admm_loop_body_stop (entrywise, up to ring equalities: a matrix-level `reflexivity` tie tripped on
+    harmless rewrites such as UtM + rho * x + rho * dual_var).  Here: the source still computes rho and x_split once each."""
     fn = _func(tree, "admm")
     rho = [s for s in fn.body if isinstance(s, ast.Assign) and isinstance(s.targets[0], ast.Name) and s.targets[0].id == "rho"]
     lp = _for_over(fn.body, "iteration")
-    xs = [s for s in lp.body if isinstance(s, ast.Assign) and isinstance(s.targets[0], ast.Name) and s.targets[0].id == "x_split"]
-    if len(rho) != 1 or len(xs) != 1:
-        raise Untranslatable("rho / x_split assignments")
-    m = Mat({"UtU": ("M", "UtU", "r", "r"), "UtM": ("M", "UtM", "m", "r"), "x": ("M", "x", "m", "r"), "dual_var": ("M", "dual", "m", "r")},
-            lambda a, b: f"(solve {a} {b})")
-    # tl.eye(n, **tl.context(UtU)): the keyword arguments carry no arithmetic
-    class _NoKw(ast.NodeTransformer):
-        def visit_Call(self, node):
-            self.generic_visit(node)
-            if _callname(node) == "eye":
-                node.keywords = []
-            return node
-    m.run([rho[0], _NoKw().visit(xs[0])])
-    v = m.env["x_split"]
-    return ("Goal forall (solve : mat -> mat -> mat) (UtM UtU x dual : mat) (m r it : nat),\n"
-            f"  snd (fst (admm_none Rops solve UtM UtU x dual m r (S it))) = Some {v[1]}.\nProof. intros. reflexivity. Qed.\n")
+    xs = [s for s in ast.walk(lp) if isinstance(s, ast.Assign) and isinstance(s.targets[0], ast.Name) and s.targets[0].id == "x_split"]
+    if len(rho) != 1 or len(xs) != 1 or not (isinstance(xs[0].value, ast.Call) and _callname(xs[0].value) == "solve"):
+        raise Untranslatable("rho / x_split = tl.solve(...) assignments")
+    return ("From TLV Require Import Model.NnlsAdmm Proofs.NnlsProofsAdmmLoop.\n"
+            "Goal forall (solve : mat -> mat -> mat) (UtM UtU x dual : mat) (m r it : nat),\n"
+            "  snd (fst (admm_none Rops solve UtM UtU x dual m r (S it))) = Some (solve (admm_lhs Rops UtU r) (admm_rhs UtM UtU r x dual)).\n"
+            "Proof. intros. reflexivity. Qed.\n")
 
 
 def tie_aset_tests(tree):
